@@ -2,6 +2,7 @@ package mon
 
 import (
 	"context"
+	"encoding/base64"
 	"fmt"
 	"math/rand"
 	"runtime"
@@ -9,6 +10,7 @@ import (
 	"strings"
 	"time"
 
+	ipfslog "berty.tech/go-ipfs-log"
 	"berty.tech/go-ipfs-log/entry"
 	"berty.tech/go-ipfs-log/iface"
 	"github.com/ipfs/go-cid"
@@ -99,7 +101,9 @@ func init() { registerCases("C11", c11Case) }
 
 func c11Case(run *evid.Run, i int, j *Journal) {
 	rng := rand.New(rand.NewSource(run.Seed*8191 + int64(i)*131071))
-	h := hx.Gen(run.Seed, i, hx.GenOpts{MaxSteps: pick(run.Tier, 30, 50), Orders: []string{"hash"}, MaxReplicas: 4})
+	h := hx.Gen(run.Seed, i, hx.GenOpts{MaxSteps: pick(run.Tier, 30, 50), Orders: []string{"hash"}, MaxReplicas: 4,
+		Codecs: []string{[]string{"cbor", "cbor", "cbor", "link"}[i%4]}}) // a same-key reader fetches sealed links
+	run.Count("cases_codec_"+h.Codec, 1)
 	for k := range h.Steps {
 		if h.Steps[k].Op == "append" && rng.Intn(2) == 0 {
 			h.Steps[k].PC = []int{4, 16, 64}[rng.Intn(3)]
@@ -111,6 +115,14 @@ func c11Case(run *evid.Run, i int, j *Journal) {
 	}
 	st := x.W.Store
 	notEntry := notAnEntryBlock()
+	manifests := map[int]cid.Cid{}
+	for r, l := range x.Logs {
+		if l.Len() >= 2 {
+			if mc, err := l.ToMultihash(x.W.Ctx); err == nil {
+				manifests[r] = mc
+			}
+		}
+	}
 	for r, l := range x.Logs {
 		src := hx.Observe(l)
 		if len(src.Set) < 2 {
@@ -126,6 +138,9 @@ func c11Case(run *evid.Run, i int, j *Journal) {
 				p.Policy = "ungated"
 			}
 			kinds := []string{"absent", "removed", "error", "garbage", "not-entry"}
+			if h.Codec == "link" {
+				kinds = append(kinds, "bad-nonce", "bad-nonce") // sealed links whose stored nonce has the wrong length: undecodable
+			}
 			rk := func() string { return kinds[rng.Intn(len(kinds))] }
 			switch pn % 8 {
 			case 0:
@@ -209,6 +224,12 @@ func c11Case(run *evid.Run, i int, j *Journal) {
 					cs.SetFault(c, store.Garbage)
 				case "not-entry":
 					cs.SetReplace(c, notEntry)
+				case "bad-nonce":
+					if raw, ok := st.Raw(c); ok {
+						cs.SetReplace(c, withBadNonce(raw, rng))
+					} else {
+						cs.SetFault(c, store.Garbage)
+					}
 				case "hang":
 					cs.SetFault(c, store.Hang)
 				}
@@ -236,9 +257,35 @@ func c11Case(run *evid.Run, i int, j *Journal) {
 			returned := make(chan struct{})
 			started := time.Now()
 			var elapsed time.Duration
+			// the caller's own context: none, or one that carries a (much later) deadline of its own
+			callerCtx, callerCancel := context.Background(), func() {}
+			callerDl := 0
+			if rng.Intn(3) == 0 {
+				callerDl = 20000
+				callerCtx, callerCancel = context.WithTimeout(context.Background(), time.Duration(callerDl)*time.Millisecond)
+				run.Count("fetches_under_a_caller_deadline", 1)
+			}
+			// through the fetcher directly, or through the manifest loader that drives it
+			via := "FetchAll"
+			mc, havem := manifests[r]
+			if havem && prog == nil && rng.Intn(3) == 0 {
+				via = "NewFromMultihash"
+			}
+			run.Count("via_"+via, 1)
+			var viaErr error
 			call := func() {
 				defer close(returned)
-				result = entry.FetchAll(context.Background(), cs.API(), cidsOf(src.Heads), fo)
+				defer callerCancel()
+				if via == "FetchAll" {
+					result = entry.FetchAll(callerCtx, cs.API(), cidsOf(src.Heads), fo)
+				} else {
+					var ll *ipfslog.IPFSLog
+					ll, viaErr = ipfslog.NewFromMultihash(callerCtx, cs.API(), x.W.Idents[0], mc, x.W.LogOpts(x.W.LogID),
+						&ipfslog.FetchOptions{Concurrency: p.Conc, Timeout: fo.Timeout, ShouldExclude: fo.ShouldExclude})
+					if ll != nil {
+						result = ll.GetEntries().Slice()
+					}
+				}
 				elapsed = time.Since(started)
 			}
 			// hang detector (state based)
@@ -282,7 +329,7 @@ func c11Case(run *evid.Run, i int, j *Journal) {
 			} else {
 				gated(&w2, p.Policy, rng, timesOf(src.Set), setOf(src.Heads), func() { go call(); watch() })
 			}
-			d := det("plan", p.Name, "concurrency", p.Conc, "policy", p.Policy, "timeout", p.Timeout > 0)
+			d := det("plan", p.Name, "concurrency", p.Conc, "policy", p.Policy, "timeout", p.Timeout > 0, "via", via, "caller_deadline", callerDl > 0, "codec", h.Codec)
 			wit := func() map[string]any {
 				m := histSample(h)
 				m["replica"] = r
@@ -321,6 +368,24 @@ func c11Case(run *evid.Run, i int, j *Journal) {
 						served[e.Cid] = true
 					}
 				}
+			}
+			// a configured timeout bounds every request: each one is issued under a context whose deadline is at most
+			// the timeout away (decided on the contexts the store was handed, not on elapsed time)
+			if p.Timeout > 0 {
+				for _, e := range evs {
+					if _, isEntry := src.Set[e.Cid]; !isEntry {
+						continue // e.g. the manifest block, read before the fetch starts
+					}
+					if e.Kind == "get-call" && e.Res != "ctx-done" && (e.DlMs == 0 || e.DlMs > int64(p.Timeout)) {
+						run.Violate("C11/request-not-bounded-by-timeout", d, wit(), "with a timeout of %d ms configured (caller deadline: %d ms) block %s was requested under a context with %s: the configured timeout does not bound the load",
+							p.Timeout, callerDl, hx.Short(e.Cid), map[bool]string{true: "no deadline at all", false: fmt.Sprintf("%d ms left until its deadline", e.DlMs)}[e.DlMs == 0])
+						break
+					}
+				}
+				run.Count("fetches_with_request_deadlines_checked", 1)
+			}
+			if via != "FetchAll" && viaErr != nil && len(model.FetchReach(src.Set, src.Heads, bad, excl)) > 0 {
+				run.Violate("C11/loader-error", d, wit(), "loading around bad blocks through %s failed although entries are retrievable: %v", via, viaErr)
 			}
 			// a load with a timeout has ONE deadline: once a request has been ended by it, no request with a live context may follow
 			expired := false
@@ -407,6 +472,33 @@ func c11Case(run *evid.Run, i int, j *Journal) {
 		}
 	}
 	run.Eval(1)
+}
+
+// withBadNonce re-encodes a stored link-codec entry block with a links nonce one byte too long or too short.
+func withBadNonce(raw []byte, rng *rand.Rand) []byte {
+	var g map[string]any
+	if err := cbornode.DecodeInto(raw, &g); err != nil {
+		return []byte{0xff}
+	}
+	ns, _ := g["enc_links_nonce"].(string)
+	nb, err := base64.StdEncoding.DecodeString(ns)
+	if err != nil || len(nb) == 0 {
+		return []byte{0xff} // an entry without sealed links (a root): plain garbage instead
+	}
+	switch rng.Intn(3) {
+	case 0:
+		nb = nb[:len(nb)-1]
+	case 1:
+		nb = append(nb, 0)
+	default:
+		nb = append(nb, make([]byte, 1+rng.Intn(40))...)
+	}
+	g["enc_links_nonce"] = base64.StdEncoding.EncodeToString(nb)
+	n, err := cbornode.WrapObject(g, mh.SHA2_256, -1)
+	if err != nil {
+		return []byte{0xff}
+	}
+	return n.RawData()
 }
 
 func tailEvents(ev []store.Event, n int) []store.Event {
